@@ -62,6 +62,12 @@ def main() -> int:
                     for line in f:
                         sink.write(line)
                 tmp.unlink()
+                pol = tmp.with_suffix(".policy")     # facts for spec/HiveControl.tla, when HV_POLICY=1
+                if pol.exists():
+                    with pol.open() as f, out.with_suffix(".policy").open("a") as psink:
+                        for line in f:
+                            psink.write(line)
+                    pol.unlink()
             except Exception as e:  # a crash of the simulator itself is reported, not hidden
                 tb = traceback.extract_tb(e.__traceback__)
                 import os
